@@ -54,6 +54,13 @@
 (*   acall  A x y (9i+3j+r)     t := A; t[i], t[j] = addsub(x, y); v := t[r]  *)
 (*   (the statement defines the element / field read back, so that what the   *)
 (*    tuple assignment stored is always observed)                             *)
+(*   compound assignments (kind set member "opassign"):                      *)
+(*   opa    op x y              v := x; v op= y        (/= by (y | 1))        *)
+(*   opal   op x c              v := x; v op= c        (c a literal; also <<= >>=) *)
+(*   incdec x c                 v := x; |c| times v++ (c > 0) / v-- (c < 0)   *)
+(*   opf    S k op y            t := S; t.fk op= y; v := t.fk                 *)
+(*   ope    A i op y            t := A; t[i] op= y; v := t[i]                 *)
+(*   lensum A                   v := 0; for i := 0; i < len(A); i++ { v += A[i] } *)
 (* Values are [t, v]: a type and the unsigned representation of the value. *)
 (* Semantics: wrap-around modulo 2^N, two's complement, truncating signed  *)
 (* division, signed modulo = |a| mod |b| (as the shipped @Test vectors fix  *)
@@ -100,6 +107,8 @@ BitOp(op, a, b, w) ==
          IN z + 2 * BitOp(op, a \div 2, b \div 2, w - 1)
 
 BinOps == {"+", "-", "*", "/", "%", "&", "|", "^", "&^"}
+\* the operators that have a compound assignment form in MPCL (+= -= *= /= |= ^= &=)
+OpAssignOps == {"+", "-", "*", "/", "|", "^", "&"}
 CmpOps == {"<", "<=", ">", ">=", "==", "!="}
 
 Bin(op, x, y) ==
@@ -175,7 +184,9 @@ TypesOf(p, n) ==   \* sequence of the types of variables 1..2+n
                     [] s.k = "midx" -> <<ts[s.x][2]>>
                     [] s.k = "mset" -> <<ts[s.x]>>
                     [] s.k \in {"call", "vswap"} -> <<ts[s.x], ts[s.x]>>
-                    [] s.k \in {"fswap", "fcall", "aswap", "acall"} -> <<ts[s.x][2]>>
+                    [] s.k \in {"fswap", "fcall", "aswap", "acall", "ope", "lensum"} -> <<ts[s.x][2]>>
+                    [] s.k = "opf" -> <<ts[s.x][s.c + 1]>>
+                    [] s.k \in {"opa", "opal", "incdec"} -> <<ts[s.x]>>
                     [] s.k = "mk" -> <<StructT(ts[s.x], ts[s.y])>>
                     [] s.k = "fld" -> <<ts[s.x][s.c + 1]>>
                     [] s.k = "mklf" -> <<ts[s.x][s.y + 1]>>
@@ -259,6 +270,16 @@ AddStmt ==
           \/ "mat" \in Kinds /\ \E m \in mats : \E ij \in 0..3 : \E x \in {v \in ints : ts[v] = ts[m][2]} :
                 add(S("mset", m, x, 0, "", <<>>, ij))
           \/ "call" \in Kinds /\ \E x \in ints : \E y \in {v \in ints : ts[v] = ts[x]} : add(S("call", x, y, 0, "", <<>>, 0))
+          \/ "opassign" \in Kinds /\ \E x \in ints : \E y \in {v \in ints : ts[v] = ts[x]} : \E op \in OpAssignOps :
+                add(S("opa", x, y, 0, op, <<>>, 0))
+          \/ "opassign" \in Kinds /\ \E x \in {v \in ints : W(ts[v]) >= 3} : \E op \in OpAssignOps \cup {"<<", ">>"} :
+                \E c \in {1, 2, 3} : add(S("opal", x, 0, 0, op, <<>>, c))
+          \/ "opassign" \in Kinds /\ \E x \in ints : \E c \in {-2, -1, 1, 2} : add(S("incdec", x, 0, 0, "", <<>>, c))
+          \/ "opassign" \in Kinds /\ \E s \in structs : \E k \in 1..2 : \E y \in {v \in ints : IsInt(ts[s][k + 1]) /\ ts[v] = ts[s][k + 1]} :
+                \E op \in OpAssignOps : add(S("opf", s, y, 0, op, <<>>, k))
+          \/ "opassign" \in Kinds /\ \E a \in {v \in arrs : IsInt(ts[v][2])} : \E i \in 0..2 : \E y \in {v \in ints : ts[v] = ts[a][2]} :
+                \E op \in OpAssignOps : add(S("ope", a, y, 0, op, <<>>, i))
+          \/ "opassign" \in Kinds /\ \E a \in {v \in arrs : IsInt(ts[v][2])} : add(S("lensum", a, 0, 0, "", <<>>, 0))
           \/ "tuple" \in Kinds /\ \E x \in ints : \E y \in {v \in ints : ts[v] = ts[x] /\ v # x} : add(S("vswap", x, y, 0, "", <<>>, 0))
           \/ "tuple" \in Kinds /\ \E s \in {v \in structs : ts[v][2] = ts[v][3] /\ IsInt(ts[v][2])} : \E k \in 1..2 :
                 add(S("fswap", s, 0, 0, "", <<>>, k))
@@ -353,6 +374,12 @@ Exec(p, i, env) ==
                   [] s.k = "midx" -> <<x.v[(s.c \div 2) + 1][(s.c % 2) + 1]>>
                   [] s.k = "mset" -> <<[x EXCEPT !.v[(s.c \div 2) + 1][(s.c % 2) + 1] = y]>>
                   [] s.k = "call" -> <<Bin("+", x, y), Bin("-", x, y)>>
+                  [] s.k = "opa" -> <<Bin(s.op, x, y)>>
+                  [] s.k = "opal" -> <<IF s.op \in {"<<", ">>"} THEN Shift(s.op, x, s.c) ELSE BinL(s.op, x, s.c)>>
+                  [] s.k = "incdec" -> <<BinL("+", x, s.c)>>
+                  [] s.k = "opf" -> <<Bin(s.op, x.v[s.c], y)>>
+                  [] s.k = "ope" -> <<Bin(s.op, x.v[s.c + 1], y)>>
+                  [] s.k = "lensum" -> <<Bin("+", Bin("+", x.v[1], x.v[2]), x.v[3])>>
                   [] s.k = "vswap" -> <<y, x>>
                   [] s.k = "fswap" -> <<x.v[3 - s.c]>>
                   [] s.k = "fcall" -> <<IF s.c = 1 THEN Bin("+", y, env[s.z]) ELSE Bin("-", y, env[s.z])>>
